@@ -22,7 +22,13 @@ class DryWorld(World):
     def __init__(self, shape):  # noqa: D107
         self.shape = shape
         self.m = None
-        self.ref = RefModule(shape["kind"], shape["cells"])
+        if shape["kind"] == "swc":
+            from .driver import ref_from_module, shape_of_swc
+
+            self.ref = ref_from_module(shape_of_swc(shape["swc_text"], shape.get("ncomp", 1)))
+            self.ref.swc = True
+        else:
+            self.ref = RefModule(shape["kind"], shape["cells"])
         self.violations = []
         self.stats = {}
         self.stopped = None
